@@ -10,6 +10,7 @@
 //        grid by CubicSpline::GenerateGrid(min,max,step) (must give n points), natural cubic spline through
 //        the knot values by the real CubicSpline::Interpolate, prints  g <n grid points>  and  v <m values Calculate(r)>
 //   cqseq   a call history of linalg_constrained_qrsolve on one (rewritten or fresh) constraint matrix object, see below
+//   spd ... spline from given (y, y'') evaluated by Calculate;  ia ... variable and gradients of a real IAngle/IDihedral
 //   fconv   prints the force conversion of the lammps dump reader (tools::conv::kcal2kj / tools::conv::ang2nm)
 #include <iostream>
 #include <memory>
@@ -21,6 +22,9 @@
 #include <votca/tools/cubicspline.h>
 #include <votca/tools/eigen.h>
 #include <votca/tools/linalg.h>
+
+#include <votca/csg/interaction.h>
+#include <votca/csg/topology.h>
 
 using namespace votca;
 
@@ -104,6 +108,45 @@ int main() {
         for (long i = 0; i < n; ++i) std::cout << " " << x(i);
         std::cout << std::endl << "v";
         for (long i = 0; i < m; ++i) std::cout << " " << sp.Calculate(r(i));
+        std::cout << std::endl;
+      } else if (cmd == "spd") {
+        // spd <min> <max> <step> <n> y1..yn f2_1..f2_n <m> r1..rm : spline from GIVEN knot values and second
+        // derivatives (setSplineData), evaluated by Calculate - no continuity/boundary code involved
+        double mn, mx, h;
+        long n, m;
+        in >> mn >> mx >> h >> n;
+        tools::CubicSpline sp;
+        Index ng = sp.GenerateGrid(mn, mx, h);
+        if (ng != n) throw std::runtime_error("driver: GenerateGrid gives another number of points");
+        Eigen::VectorXd y = read_matrix(in, n, 1).col(0);
+        Eigen::VectorXd y2 = read_matrix(in, n, 1).col(0);
+        sp.setSplineData(y, y2);
+        in >> m;
+        Eigen::VectorXd r = read_matrix(in, m, 1).col(0);
+        std::cout << "v";
+        for (long i = 0; i < m; ++i) std::cout << " " << sp.Calculate(r(i));
+        std::cout << std::endl;
+      } else if (cmd == "ia") {
+        // ia <angle|dihedral> x y z ... (3 or 4 beads, nm): the real interaction's variable and gradients (open box)
+        std::string kind;
+        in >> kind;
+        long nbd = kind == "angle" ? 3 : 4;
+        csg::Topology top;
+        top.setBox(Eigen::Matrix3d::Zero(), csg::BoundaryCondition::typeOpen);
+        for (long i = 0; i < nbd; ++i) {
+          Eigen::Vector3d p;
+          in >> p[0] >> p[1] >> p[2];
+          csg::Bead* b = top.CreateBead(csg::Bead::spherical, "b" + std::to_string(i), "A", 0, 1.0, 0.0);
+          b->setPos(p);
+        }
+        std::unique_ptr<csg::Interaction> ia;
+        if (kind == "angle") ia.reset(new csg::IAngle(0, 1, 2));
+        else ia.reset(new csg::IDihedral(0, 1, 2, 3));
+        std::cout << "res " << ia->EvaluateVar(top);
+        for (long i = 0; i < nbd; ++i) {
+          Eigen::Vector3d g = ia->Grad(top, i);
+          std::cout << " " << g[0] << " " << g[1] << " " << g[2];
+        }
         std::cout << std::endl;
       } else if (cmd == "fconv") {
         std::cout << "fconv " << tools::conv::kcal2kj / tools::conv::ang2nm << std::endl;
